@@ -70,3 +70,40 @@ def chain_text(node: Node) -> list:
 
 def chain_funcs(node: Node) -> str:
     return ' -> '.join(fr.ctx.func.name for fr in node.frame.chain())
+
+
+def unguarded_path(e, g, site, alternatives, start=None):
+    """Path from entry to `site` on which none of the alternative atoms
+    (list of (pol, key)) was established by a branch test, or None.
+    Use for disjunctive guards (`if not a or b < c: site()`), which a
+    must-facts intersection cannot express."""
+    from ..facts import atoms_of_test, key_paths
+    from .. import dataflow
+    alts = set(alternatives)
+    paths = set()
+    for p, k in alts:
+        paths |= set(key_paths(k))
+
+    def step(n, label, st):
+        if st:
+            # an assignment to a mentioned path invalidates the guard
+            if n.kind == 'stmt':
+                import ast as _ast
+                a = n.ast
+                tg = []
+                if isinstance(a, _ast.Assign):
+                    tg = a.targets
+                elif isinstance(a, (_ast.AugAssign, _ast.AnnAssign)):
+                    tg = [a.target]
+                from ..facts import path_of
+                for t in tg:
+                    if path_of(t, n.frame) in paths:
+                        return False
+            return True
+        if n.kind == 'test' and label in ('T', 'F'):
+            for atom in atoms_of_test(n.ast, label == 'T', n.frame):
+                if atom in alts:
+                    return True
+        return False
+    return dataflow.typestate_witness(
+        g, False, step, lambda n, st: n is site and not st, start=start)
